@@ -132,6 +132,9 @@ func (c *Compactor) Compact() (*CompactionResult, error) {
 
 	// Create temp file for new data (always V3 format with name in header area)
 	tempPath := c.filePath + ".compact"
+	// NewFileWriterWithName appends to an existing file: drop any leftover temp
+	// from a previously interrupted compaction so its entries cannot be resurrected.
+	_ = os.Remove(tempPath)
 	writer, err := NewFileWriterWithName(tempPath, c.maxBlockSize, swampName)
 	if err != nil {
 		result.Error = err
